@@ -383,7 +383,10 @@ class IndentationFitter(object):
         `self.fit_range` before the actual fitting.
         """
         model_key = self.fp["model_key"]
-        params_initial = self.fp["params_initial"]
+        # Work on a copy of the initial parameters: they are needed
+        # unchanged for every pass of a multi-pass fit (and they might be
+        # the object that the user passed to `fit_model`).
+        params_initial = copy.deepcopy(self.fp["params_initial"])
         # modify contact point with gcf_k
         cpi = params_initial["contact_point"].value
         params_initial["contact_point"].set(value=cpi * self.fp["gcf_k"])
